@@ -246,7 +246,15 @@ func runScenario(id string, sc scenario, r *core.Rand) {
 	var links []*link
 	for i := 0; i < sc.Sess; i++ {
 		xw, yw := &tapLog{}, &tapLog{}
-		l, err := bed.Connect(py, px, p.Func, p.Func, func(ca, cb *memconn.Conn) {
+		connect := bed.Connect
+		if !p.Stream {
+			// websocket sub-protocol: real handshake and framing; the closing side X is the websocket SERVER (the shipped
+			// serve handler owns the hijacked connection), whose frames are unmasked, so that reply tokens show in its writes
+			connect = func(a, b erpc.Peer, pfa, _ erpc.ProtoFunc, prep func(ca, cb *memconn.Conn)) (*bed.Link, error) {
+				return bed.ConnectWS(a, b, pfa, prep)
+			}
+		}
+		l, err := connect(py, px, p.Func, p.Func, func(ca, cb *memconn.Conn) {
 			ca.SetWriteTap(yw.tap) // Y's writes
 			cb.SetWriteTap(xw.tap) // X's writes
 		})
@@ -769,6 +777,14 @@ func main() {
 						scs = append(scs, scenario{Proto: pn, K: k[0], K2: k[1], Point: pt, Closer: cl, Class: "placed", Sess: sess, DelayPM: 200})
 					}
 				}
+			}
+		}
+	}
+	// the closing side is a websocket server session (calls handled by the closing side only: the far side's frames are masked)
+	for _, pt := range []string{"inside", "handlecall.beforeReply"} {
+		for _, k := range []int{1, 4} {
+			for _, cl := range []string{"session", "peer"} {
+				scs = append(scs, scenario{Proto: "ws-json", K: k, K2: 0, Point: pt, Closer: cl, Class: "placed", Sess: 1})
 			}
 		}
 	}
